@@ -65,7 +65,7 @@ def run(chk):
                        "structural value and in no value inside a wx:if / wx:for / template-is / slot element, and it occurs in some other value; advertised_iff etc. are "
                        "about the collector state machine. That the emitted updaters re-evaluate every occurrence is established by the oracle only"]
     chk.model_tie([("GE.Thm.C07", THEOREMS), ("GE.Thm.C05Tag", ["GE.TagScope.advertised_tag_iff", "GE.TagScope.opsOk_node", "GE.TagScope.run_main_eq_spec"]),
-                   ("GE.Thm.C07Tag", ["GE.TagSem.bindmap_refines", "GE.TagSem.bm_renders", "GE.TagSem.renders_congr", "GE.TagSem.not_advertised_of_dynOccurs"]),
+                   ("GE.Thm.C07Tag", ["GE.TagSem.bindmap_refines", "GE.TagSem.bm_renders", "GE.TagSem.renders_congr", "GE.TagSem.not_advertised_of_dynOccurs", "GE.TagSem.not_advertised_of_include"]),
                    ("GE.Thm.C07TagJson", ["GE.TagSem.json_bindmap_refines", "GE.TagSem.json_sameBut", "GE.TagSem.evalE_congr"])])
     rng = chk.rng.fork("c07")
     # the tag-level model (bindmap_refines is about it) vs the real compiler + runtime: advertised sets and the effect of the updaters of every field
